@@ -1984,7 +1984,12 @@ fn collect_validator_issues_inner(
     path: &PathKey,
     out: &mut Vec<ValidationIssue>,
 ) {
-    for (field, kind) in errors.errors() {
+    // `ValidationErrors` keeps fields (and each entry its params) in a `HashMap`: iterate in a
+    // fixed order, otherwise the reported location (that of the first issue) and the order of
+    // the rendered issues change from one call to the next with the hasher's random seed.
+    let mut fields: Vec<_> = errors.errors().iter().collect();
+    fields.sort_by(|a, b| a.0.cmp(b.0));
+    for (field, kind) in fields {
         let field_path = path.clone().join(field.as_ref());
         match kind {
             ValidationErrorsKind::Field(entries) => {
@@ -1993,6 +1998,7 @@ fn collect_validator_issues_inner(
                     for (k, v) in &entry.params {
                         params.push((k.to_string(), v.to_string()));
                     }
+                    params.sort();
 
                     out.push(ValidationIssue {
                         path: field_path.clone(),
